@@ -52,6 +52,13 @@ theorem scopedUpdate_midGen (s : St) (t : Nat) (x : Task) (rest : List (Nat × O
 theorem syncAfterEnd_not_coro (pc : Pc) (l : List Nat) (h : ∀ sv, pc ≠ .awaitCoro sv) : syncAfterEnd pc l = l := by
   cases pc <;> simp_all [syncAfterEnd]
 
+/-- the invariant holds and the ready queue is exactly `r`: under the invariant a step of the ready
+queue removes the head entry and appends nothing (no branch that cancels another task is taken) -/
+def InvR (c : Cfg) (s : St) (r : List (Nat × Option Fid)) : Prop := Inv c s none ∧ s.ready = r
+
+theorem invR_of_eq (c : Cfg) (a b : St) (r : List (Nat × Option Fid)) (e : a = b) (h : InvR c a r) : InvR c b r := by
+  subst e; exact h
+
 theorem inv_genLoop (c : Cfg) (s : St) (t : Nat) (w : Option Fid) (rest : List (Nat × Option Fid)) (x : Task) (n : Nat)
     (h : Inv c s none) (hr : s.ready = (t, w) :: rest) (ht : s.tasks t = some x) (hl : Live c s t x)
     (hw : ∀ f, waitingOn t x.pc = some f → w = some f) (hst : x.pc = .start → w = none)
@@ -59,7 +66,7 @@ theorem inv_genLoop (c : Cfg) (s : St) (t : Nat) (w : Option Fid) (rest : List (
     ∀ (r : Nat) (vals' : Nat → Int) (lg : List (Nat × Int)), r ≤ n →
       (∀ q, q ≠ x.param → vals' q = s.vals q) →
       (0 < n - r → s.futs (t, n - r - 1) = .done (vals' x.param)) →
-      Inv c (genLoop t x.param n r (midGen s t x rest vals' lg)) none := by
+      InvR c (genLoop t x.param n r (midGen s t x rest vals' lg)) rest := by
   have hxpc : ∀ sv, x.pc ≠ .awaitCoro sv := by
     intro sv hsv
     have := h.kind_coro t x sv ht hsv
@@ -81,7 +88,7 @@ theorem inv_genLoop (c : Cfg) (s : St) (t : Nat) (w : Option Fid) (rest : List (
                  asyncRefs := upd s.asyncRefs x.param none,
                  syncing := s.syncing, vals := vals', log := lg } := by
       apply St.ext' <;> simp [genLoop, midGen, cleanup, endTask, St.setTask, upd_upd]
-    rw [this]; exact key
+    rw [this]; exact ⟨key, rfl⟩
   | succ r ih =>
     intro vals' lg hrn hvq hp
     simp only [genLoop]
@@ -116,7 +123,7 @@ theorem inv_genLoop (c : Cfg) (s : St) (t : Nat) (w : Option Fid) (rest : List (
                  vals := vals', log := lg } := by
         apply St.ext' <;> simp [midGen, St.setTask, upd_upd]
       simp only [Bool.false_eq_true, ↓reduceIte]
-      rw [this]; exact key
+      rw [this]; exact ⟨key, rfl⟩
 
 
 /-- removing a queue entry nobody is waiting for -/
@@ -158,7 +165,7 @@ theorem syncing_nil_of_coro (c : Cfg) (s : St) (t : Nat) (x : Task) (h : Inv c s
 set_option maxHeartbeats 1000000 in
 theorem inv_stepStart (c : Cfg) (s : St) (t : Nat) (rest : List (Nat × Option Fid)) (x : Task)
     (h : Inv c s none) (hr : s.ready = (t, none) :: rest) (ht : s.tasks t = some x) (hpc : x.pc = .start) :
-    Inv c (stepStart c { s with ready := rest } t x) none := by
+    InvR c (stepStart c { s with ready := rest } t x) rest := by
   obtain ⟨xp, xk, xpc, xm⟩ := x
   simp only at hpc; subst hpc
   have hw : ∀ f, waitingOn t Pc.start = some f → (none : Option Fid) = some f := by intro f hf; simp [waitingOn] at hf
@@ -169,7 +176,7 @@ theorem inv_stepStart (c : Cfg) (s : St) (t : Nat) (rest : List (Nat × Option F
     simp only [↓reduceIte]
     have key := inv_dead_end c s t none rest ⟨xp, xk, .start, true⟩ .cancelled h hr ht (Or.inr rfl) (Or.inl rfl) rfl hw
       (fun _ => rfl)
-    exact key
+    exact ⟨key, rfl⟩
   · have hm' : xm = false := by simpa using hm
     subst hm'
     simp only [Bool.false_eq_true, ↓reduceIte]
@@ -179,7 +186,7 @@ theorem inv_stepStart (c : Cfg) (s : St) (t : Nat) (rest : List (Nat × Option F
       have hd : Doomed c s t ⟨xp, xk, .start, false⟩ := by
         simp only [Bool.and_eq_true, bne_iff_ne, ne_eq] at hsc
         exact Or.inr (Or.inr ⟨hsc.1, rfl, hsc.2⟩)
-      exact inv_dead_end c s t none rest ⟨xp, xk, .start, false⟩ .finished h hr ht (Or.inl rfl) hd rfl hw (fun _ => rfl)
+      exact ⟨inv_dead_end c s t none rest ⟨xp, xk, .start, false⟩ .finished h hr ht (Or.inl rfl) hd rfl hw (fun _ => rfl), rfl⟩
     · simp only [hsc, Bool.false_eq_true, ↓reduceIte]
       have hl : Live c s t ⟨xp, xk, .start, false⟩ := by
         refine ⟨rfl, ?_⟩
@@ -215,8 +222,7 @@ theorem inv_stepStart (c : Cfg) (s : St) (t : Nat) (rest : List (Nat × Option F
             have key := inv_live_end c s t none rest ⟨xp, .coro, .start, false⟩ (upd s.vals xp v) (s.log ++ [(xp, v)])
               h hr ht hl hw (fun _ => rfl) (by intro q hq; simp [upd, hq]) (by intro _; simp [hf]) (by intro n hn; cases hn)
             rw [plainSet_in_scope _ _ _ (by simp [hsy, addName])]
-            have : ∀ a b, a = b → Inv c a none → Inv c b none := by intro a b e; subst e; exact id
-            refine this _ _ ?_ key
+            refine invR_of_eq c _ _ _ ?_ ⟨key, rfl⟩
             apply St.ext' <;> simp [cleanup, endTask, St.setTask, upd_upd, syncAfterEnd, hsy]
           | cancelled =>
             exfalso
@@ -226,8 +232,7 @@ theorem inv_stepStart (c : Cfg) (s : St) (t : Nat) (rest : List (Nat × Option F
             simp only [awaitFut, hf]
             have key := inv_live_susp_coro_inside c s t none rest ⟨xp, .coro, .start, false⟩ s.vals s.log w0
               h hr ht hl hw (fun _ => rfl) (fun _ _ => rfl) hf rfl ha (by intro sv; simp)
-            have : ∀ a b, a = b → Inv c a none → Inv c b none := by intro a b e; subst e; exact id
-            refine this _ _ ?_ key
+            refine invR_of_eq c _ _ _ ?_ ⟨key, rfl⟩
             apply St.ext' <;> simp [St.setTask, upd_upd, hsy, addName]
         · have ha' : c.awaitInside = false := by simpa using ha
           simp only [ha', Bool.false_eq_true, ↓reduceIte]
@@ -237,8 +242,7 @@ theorem inv_stepStart (c : Cfg) (s : St) (t : Nat) (rest : List (Nat × Option F
             have key := inv_live_end c s t none rest ⟨xp, .coro, .start, false⟩ (upd s.vals xp v) (s.log ++ [(xp, v)])
               h hr ht hl hw (fun _ => rfl) (by intro q hq; simp [upd, hq]) (by intro _; simp [hf]) (by intro n hn; cases hn)
             rw [scopedUpdate_eq]
-            have : ∀ a b, a = b → Inv c a none → Inv c b none := by intro a b e; subst e; exact id
-            refine this _ _ ?_ key
+            refine invR_of_eq c _ _ _ ?_ ⟨key, rfl⟩
             apply St.ext' <;> simp [cleanup, endTask, St.setTask, upd_upd, syncAfterEnd]
           | cancelled =>
             exfalso
@@ -248,8 +252,7 @@ theorem inv_stepStart (c : Cfg) (s : St) (t : Nat) (rest : List (Nat × Option F
             simp only [awaitFut, hf]
             have key := inv_live_susp_coro_outside c s t none rest ⟨xp, .coro, .start, false⟩ s.vals s.log w0
               h hr ht hl hw (fun _ => rfl) (fun _ _ => rfl) hf rfl ha' (by intro sv; simp)
-            have : ∀ a b, a = b → Inv c a none → Inv c b none := by intro a b e; subst e; exact id
-            refine this _ _ ?_ key
+            refine invR_of_eq c _ _ _ ?_ ⟨key, rfl⟩
             apply St.ext' <;> simp [St.setTask, upd_upd]
       | agen n =>
         have key := inv_genLoop c s t none rest ⟨xp, .agen n, .start, false⟩ n h hr ht hl hw (fun _ => rfl) rfl n
@@ -262,7 +265,7 @@ theorem inv_of_eq (c : Cfg) (a b : St) (e : a = b) (h : Inv c a none) : Inv c b 
 set_option maxHeartbeats 1000000 in
 theorem inv_stepWake (c : Cfg) (s : St) (t : Nat) (f : Fid) (rest : List (Nat × Option Fid)) (x : Task)
     (h : Inv c s none) (hr : s.ready = (t, some f) :: rest) (ht : s.tasks t = some x) :
-    Inv c (stepWake { s with ready := rest } t x f) none := by
+    InvR c (stepWake { s with ready := rest } t x f) rest := by
   obtain ⟨xp, xk, xpc, xm⟩ := x
   unfold stepWake
   have hdrop1 : waitingOn t xpc ≠ some f → Inv c { s with ready := rest } none := by
@@ -298,13 +301,13 @@ theorem inv_stepWake (c : Cfg) (s : St) (t : Nat) (f : Fid) (rest : List (Nat ×
       cases xpc with
       | awaitCoro saved =>
         have hsc := h.scope t _ saved ht rfl
-        refine inv_of_eq c _ _ ?_ (dead hd)
+        refine invR_of_eq c _ _ _ ?_ ⟨dead hd, rfl⟩
         apply St.ext' <;> simp [cleanup, endTask, St.setTask, upd_upd, syncAfterEnd, hsc.2.1, nr]
       | awaitOut =>
-        refine inv_of_eq c _ _ ?_ (dead hd)
+        refine invR_of_eq c _ _ _ ?_ ⟨dead hd, rfl⟩
         apply St.ext' <;> simp [cleanup, endTask, St.setTask, upd_upd, syncAfterEnd, nr]
       | awaitGen k =>
-        refine inv_of_eq c _ _ ?_ (dead hd)
+        refine invR_of_eq c _ _ _ ?_ ⟨dead hd, rfl⟩
         apply St.ext' <;> simp [cleanup, endTask, St.setTask, upd_upd, syncAfterEnd, nr]
       | _ => simp [waitingOn] at hwf
     · have hm' : xm = false := by simpa using hm
@@ -313,7 +316,7 @@ theorem inv_stepWake (c : Cfg) (s : St) (t : Nat) (f : Fid) (rest : List (Nat ×
       cases hf : s.futs f with
       | pending w0 =>
         simp only []
-        refine inv_drop_head c s _ rest h hr ?_ ?_
+        refine ⟨inv_drop_head c s _ rest h hr ?_ ?_, rfl⟩
         · intro t' x' _ _ e; cases e
         · intro t' x' f' ht' hw' hp e
           cases e
@@ -325,13 +328,13 @@ theorem inv_stepWake (c : Cfg) (s : St) (t : Nat) (f : Fid) (rest : List (Nat ×
         cases xpc with
         | awaitCoro saved =>
           have hsc := h.scope t _ saved ht rfl
-          refine inv_of_eq c _ _ ?_ (dead hd)
+          refine invR_of_eq c _ _ _ ?_ ⟨dead hd, rfl⟩
           apply St.ext' <;> simp [cleanup, endTask, St.setTask, upd_upd, syncAfterEnd, hsc.2.1, nr]
         | awaitOut =>
-          refine inv_of_eq c _ _ ?_ (dead hd)
+          refine invR_of_eq c _ _ _ ?_ ⟨dead hd, rfl⟩
           apply St.ext' <;> simp [cleanup, endTask, St.setTask, upd_upd, syncAfterEnd, nr]
         | awaitGen k =>
-          refine inv_of_eq c _ _ ?_ (dead hd)
+          refine invR_of_eq c _ _ _ ?_ ⟨dead hd, rfl⟩
           apply St.ext' <;> simp [cleanup, endTask, St.setTask, upd_upd, syncAfterEnd, nr]
         | _ => simp [waitingOn] at hwf
       | done v =>
@@ -356,7 +359,7 @@ theorem inv_stepWake (c : Cfg) (s : St) (t : Nat) (f : Fid) (rest : List (Nat ×
             (by intro n hn; cases hn)
           simp only []
           rw [plainSet_in_scope _ _ _ (by simp [St.setTask, hsc.2.2])]
-          refine inv_of_eq c _ _ ?_ key
+          refine invR_of_eq c _ _ _ ?_ ⟨key, rfl⟩
           apply St.ext' <;> simp [cleanup, endTask, St.setTask, upd_upd, syncAfterEnd, hsc.2.1, hreg]
         | awaitOut =>
           have hk := h.kind_coro' t _ ht rfl
@@ -368,7 +371,7 @@ theorem inv_stepWake (c : Cfg) (s : St) (t : Nat) (f : Fid) (rest : List (Nat ×
             (by intro n hn; cases hn)
           simp only []
           rw [scopedUpdate_eq]
-          refine inv_of_eq c _ _ ?_ key
+          refine invR_of_eq c _ _ _ ?_ ⟨key, rfl⟩
           apply St.ext' <;> simp [cleanup, endTask, St.setTask, upd_upd, syncAfterEnd, hreg]
         | awaitGen k =>
           have hkg := h.kind_gen t _ k ht rfl
@@ -386,24 +389,25 @@ theorem inv_stepWake (c : Cfg) (s : St) (t : Nat) (f : Fid) (rest : List (Nat ×
                   have : n - (n - (k + 1)) - 1 = k := by omega
                   rw [this, hf]; simp)
             rw [scopedUpdate_eq]
-            refine inv_of_eq c _ _ ?_ key
+            refine invR_of_eq c _ _ _ ?_ key
             congr 1
             apply St.ext' <;> simp [midGen, St.setTask, upd_self _ _ _ hreg]
         | _ => simp [waitingOn] at hwf
   · have : (waitingOn t xpc != some f) = true := by simpa using hwf
     simp only [this, ↓reduceIte]
-    exact hdrop1 hwf
+    exact ⟨hdrop1 hwf, rfl⟩
 
 
-theorem inv_stepReady (c : Cfg) (s : St) (h : Inv c s none) : Inv c (stepReady c s) none := by
+theorem invR_stepReady (c : Cfg) (s : St) (h : Inv c s none) : InvR c (stepReady c s) s.ready.tail := by
   unfold stepReady
   split
-  · exact h
+  · rename_i hr; exact ⟨h, by rw [hr]; rfl⟩
   · rename_i t w rest hr
-    simp only []
+    rw [hr]
+    simp only [List.tail_cons]
     split
     · rename_i hnone
-      refine inv_drop_head c s _ rest h hr ?_ ?_
+      refine ⟨inv_drop_head c s _ rest h hr ?_ ?_, rfl⟩
       · intro t' x' ht' _ e; cases e; rw [hnone] at ht'; cases ht'
       · intro t' x' f' ht' _ _ e; cases e; rw [hnone] at ht'; cases ht'
     · rename_i x hx
@@ -414,10 +418,13 @@ theorem inv_stepReady (c : Cfg) (s : St) (h : Inv c s none) : Inv c (stepReady c
         · rename_i hpc
           exact inv_stepStart c s t rest x h hr hx hpc
         · rename_i hpc
-          refine inv_drop_head c s _ rest h hr ?_ ?_
+          refine ⟨inv_drop_head c s _ rest h hr ?_ ?_, rfl⟩
           · intro t' x' ht' hp' e; cases e; rw [hx] at ht'; cases ht'; exact hpc hp'
           · intro t' x' f' _ _ _ e; cases e
       | some f => exact inv_stepWake c s t f rest x h hr hx
+
+theorem inv_stepReady (c : Cfg) (s : St) (h : Inv c s none) : Inv c (stepReady c s) none :=
+  (invR_stepReady c s h).1
 
 theorem inv_drain (c : Cfg) (n : Nat) : ∀ s, Inv c s none → Inv c (drain c n s) none := by
   induction n with
@@ -428,5 +435,19 @@ theorem inv_drain (c : Cfg) (n : Nat) : ∀ s, Inv c s none → Inv c (drain c n
     split
     · exact h
     · exact ih _ (inv_stepReady c s h)
+
+/-- the fuel suffices: under the invariant every step shortens the ready queue by one, so `n` steps
+empty a queue of length at most `n` -/
+theorem drain_empties (c : Cfg) (n : Nat) : ∀ s, Inv c s none → s.ready.length ≤ n → (drain c n s).ready = [] := by
+  induction n with
+  | zero => intro s _ hl; simp only [drain]; simpa using hl
+  | succ n ih =>
+    intro s h hl
+    simp only [drain]
+    split
+    · rename_i he; simpa using he
+    · have hr := invR_stepReady c s h
+      apply ih _ hr.1
+      rw [hr.2, List.length_tail]; omega
 
 end ParamVerif.Async
